@@ -1105,6 +1105,9 @@ def array_truth_rule(chk, repo, clause, mods):
             return truth_names(t.operand)
         if isinstance(t, ast.BoolOp):
             return [x for v in t.values for x in truth_names(v)]
+        if isinstance(t, ast.Compare) and len(t.ops) == 1 and isinstance(t.ops[0], (ast.Lt, ast.LtE, ast.Gt, ast.GtE)):
+            # `seed < 0` is an array of booleans for an array argument: its truth is as ambiguous as the array's own
+            return [x for x in (t.left, t.comparators[0]) if isinstance(x, ast.Name)]
         return []
     for f in repo.all_functions():
         if f.module.name not in mods:
@@ -1163,6 +1166,14 @@ def crossed_arguments_rule(chk, repo, clause, mods):
             d = dotted(node.func)
             if isinstance(node.func, ast.Name) and node.func.id == 'cls' and f.cls is not None and f.is_classmethod:
                 callee, ctor = f.cls.find_method('__init__'), True
+            elif isinstance(node.func, ast.Attribute) and node.func.attr == '__init__' and isinstance(node.func.value, ast.Call) and \
+                    isinstance(node.func.value.func, ast.Name) and node.func.value.func.id == 'super' and f.cls is not None:
+                # super().__init__(...): the constructor of the next class up
+                for b_ in f.cls.bases:
+                    m_ = b_.find_method('__init__')
+                    if m_ is not None:
+                        callee, ctor = m_, True
+                        break
             elif d is not None and d.split('.')[0] not in ('self', 'cls'):
                 tgt = repo.resolve_name(f.module, d)
                 if isinstance(tgt, FuncInfo):
@@ -1208,6 +1219,32 @@ def crossed_arguments_rule(chk, repo, clause, mods):
                     pass
             if mm and (f.key, callee.key) not in CROSSED_OK:
                 bad.append(f'{f.key} -> {callee.key} at {f.loc(node)}: ' + ', '.join(f'`{a}` passed for `{p_}`' for p_, a in mm))
+    # running minimum / maximum kept per variable: `cmax = max(cmin, x)` takes the extreme over the wrong pair
+    acc_bad, n_acc = [], 0
+    for f in repo.all_functions():
+        if f.module.name not in mods:
+            continue
+        for loop in (x for x in ast.walk(f.node) if isinstance(x, (ast.For, ast.While))):
+            pairs = []
+            for st_ in ast.walk(loop):
+                if not isinstance(st_, ast.Assign) or len(st_.targets) != 1:
+                    continue
+                tg, vl = st_.targets[0], st_.value
+                items = list(zip(tg.elts, vl.elts)) if isinstance(tg, ast.Tuple) and isinstance(vl, ast.Tuple) and len(tg.elts) == len(vl.elts) \
+                    else [(tg, vl)]
+                for t_, v_ in items:
+                    if isinstance(t_, ast.Name) and isinstance(v_, ast.Call) and isinstance(v_.func, ast.Name) and v_.func.id in ('min', 'max') \
+                            and len(v_.args) == 2 and all(isinstance(a_, ast.Name) for a_ in v_.args) and not v_.keywords:
+                        pairs.append((t_.id, v_.func.id, [a_.id for a_ in v_.args], st_))
+            running = {t_ for t_, _fn, args_, _ in pairs if t_ in args_}
+            for t_, fn_, args_, st_ in pairs:
+                n_acc += 1
+                if t_ not in args_ and any(a_ in running for a_ in args_):
+                    acc_bad.append(f'{f.key} at {f.loc(st_)}: `{t_} = {fn_}({", ".join(args_)})` combines the running value of '
+                                   f'`{[a_ for a_ in args_ if a_ in running][0]}`, not of `{t_}`')
+    if n_acc:
+        chk.ob(clause, 'B3-binding', 'lentil.' + '/'.join(mods), 'a running minimum / maximum is updated from its own previous value',
+               not acc_bad, '; '.join(acc_bad[:2]), '')
     chk.ob(clause, 'B3-binding', 'lentil.' + '/'.join(mods), 'internal calls pass like-named variables for like-named parameters',
            (not bad) if n else None, '; '.join(sorted(set(bad))[:3]) or f'{n} resolved call site(s)', '')
 
